@@ -42,7 +42,7 @@ RULE = ('type-directed random OAL programs (quick: 2500 programs, <= 25 generate
         'an instance set across creates / deletes inside the loop over it; a fifth of the sessions are CHURN sessions: loops '
         'that create, relate and conditionally delete, delete-all (for each / select any in a while loop), re-creation and '
         're-relating of instances of the same classes, garbage collected between the programs (a deleted instance must not '
-        'be remembered by anything a new instance can share with it); a family puts break / continue into ELSE clauses '
+        'be remembered by anything a new instance can share with it); a family runs one select-where statement several times in a loop while the `selected`-free operands of its clause change; a family puts break / continue into ELSE clauses '
         '(also nested: if/else inside an elif, inside an else) of while / for each bodies that have statements after the if')
 EXHAUSTIVE = {'quick': False, 'thorough': False}
 ASSUMPTIONS = ['programs are type-correct, terminating and error-free (apart from division by zero, which is compared) under the reference semantics (membership decided by Spec)',
